@@ -78,6 +78,7 @@ def getItem (j : Json) : Except String Item := do
     else
       pure (.unitref (← getStr (← field j "name")) (← getStr (← field j "ref")) (← optOf getStr (fieldD j "unit")))
   | "optref" => pure (.optref (← getStr (← field j "ref")) (← optOf getStr (fieldD j "unit")))
+  | "unitimp" => pure (.unitimp (← getStr (← field j "source")) (← optOf getStr (fieldD j "name")))
   | "case" =>
     let indent ← (← field j "indent").getNat?
     match ← (← field j "kind").getStr? with
@@ -154,6 +155,7 @@ def getStmt (j : Json) : Except String SStmt := do
   | "tags" => pure (.tags path (← (← getList (← field j "v")).mapM getStr))
   | "option" => pure (.option path (← getSVal (← field j "v")) (← optOf getStr (fieldD j "unit")))
   | "unitdef" => pure (.unitdef (← getStr (← field j "name")) (← getSVal (← field j "v")) (← optOf getStr (fieldD j "unit")))
+  | "unitimp" => pure (.unitimp (← getStr (← field j "source")) (← optOf getStr (fieldD j "name")))
   | "case" => pure (.caseCond (← getSVal (← field j "v")))
   | "else" => pure .caseElse
   | "end" => pure .caseEnd
@@ -171,24 +173,28 @@ def envJson (e : Env) : Json :=
   Json.mkObj [("nodes", jarr nodeJson e.nodes),
     ("units", jarr (fun (u : Str × Val × Option Str) => Json.arr #[jS u.1, valJson u.2.1, optJ jS u.2.2]) e.units)]
 
+abbrev UnitDefs := List (Str × Val × Option Str)
+
 /-- remote sources are parsed on their own, in order, each seeing the sources before it -/
-def parseSources (tbl : UnitTable) : List Json → List (Str × List Node) → Except String (List (Str × List Node))
-  | [], acc => pure acc
-  | j :: rest, acc => do
+def parseSources (tbl : UnitTable) : List Json → List (Str × List Node) → List (Str × UnitDefs) →
+    Except String (List (Str × List Node) × List (Str × UnitDefs))
+  | [], acc, ua => pure (acc, ua)
+  | j :: rest, acc, ua => do
     let name ← getStr (← field j "name")
     let items ← (← getList (← field j "items")).mapM getItem
-    match parseC tbl { Env.empty with sources := acc } items with
+    match parseC tbl { Env.empty with sources := acc, srcUnits := ua } items with
     | .error e => throw s!"source: {e}"
-    | .ok env => parseSources tbl rest (acc ++ [(name, env.nodes)])
+    | .ok env => parseSources tbl rest (acc ++ [(name, env.nodes)]) (ua ++ [(name, env.units)])
 
-def specSources (tbl : UnitTable) : List Json → List (Str × List SNode) → Except String (Option (List (Str × List SNode)))
-  | [], acc => pure (some acc)
-  | j :: rest, acc => do
+def specSources (tbl : UnitTable) : List Json → List (Str × List SNode) → List (Str × UnitDefs) →
+    Except String (Option (List (Str × List SNode) × List (Str × UnitDefs)))
+  | [], acc, ua => pure (some (acc, ua))
+  | j :: rest, acc, ua => do
     let name ← getStr (← field j "name")
     let stmts ← (← getList (← field j "stmts")).mapM getStmt
-    match sRunC tbl (⟨[], acc, false, []⟩, none) stmts with
+    match sRunC tbl (⟨[], acc, false, [], ua⟩, none) stmts with
     | .error _ => pure none
-    | .ok (env, _) => specSources tbl rest (acc ++ [(name, env.nodes)])
+    | .ok (env, _) => specSources tbl rest (acc ++ [(name, env.nodes)]) (ua ++ [(name, env.units)])
 
 /-- name of `env.nodes[-1]` before every line of the main text (what a property line acts on) -/
 def lastTrace (tbl : UnitTable) : CEnv → List Item → List Json
@@ -201,10 +207,10 @@ def lastTrace (tbl : UnitTable) : CEnv → List Item → List Json
 
 def runModel (tbl : UnitTable) (j : Json) : Except String Json := do
   let srcs ← getList (fieldD j "sources" |> fun x => if x == Json.null then Json.arr #[] else x)
-  match parseSources tbl srcs [] with
+  match parseSources tbl srcs [] [] with
   | .error e => pure (Json.mkObj [("err", jstr e)])
-  | .ok sources =>
-    let env0 : Env := { Env.empty with sources := sources }
+  | .ok (sources, srcUnits) =>
+    let env0 : Env := { Env.empty with sources := sources, srcUnits := srcUnits }
     let baseJ := fieldD j "base"
     let mainItems ← (← getList (← field j "main")).mapM getItem
     let srcJson := jarr (fun (s : Str × List Node) => Json.mkObj [("name", jS s.1), ("nodes", jarr nodeJson s.2)]) sources
@@ -229,13 +235,13 @@ def serrStr : SErr → String
 
 def runSpec (tbl : UnitTable) (j : Json) : Except String Json := do
   let srcs ← getList (fieldD j "sources" |> fun x => if x == Json.null then Json.arr #[] else x)
-  match ← specSources tbl srcs [] with
+  match ← specSources tbl srcs [] [] with
   | none => pure (jstr "outside")
-  | some sources =>
+  | some (sources, srcUnits) =>
     let baseJ := fieldD j "base"
     let baseStmts ← if baseJ == Json.null then pure [] else (← getList baseJ).mapM getStmt
     let mainStmts ← (← getList (← field j "main")).mapM getStmt
-    match sRunC tbl (⟨[], sources, false, []⟩, none) baseStmts with
+    match sRunC tbl (⟨[], sources, false, [], srcUnits⟩, none) baseStmts with
     | .error _ => pure (jstr "outside")       -- the base itself must be a valid program
     | .ok (benv, _) =>
       if benv.mayReject then pure (jstr "outside") else
